@@ -203,7 +203,7 @@ def main():
         bounded = []
         timed_out = []
         if kani_harnesses:
-            kres = kanirun.run(REPO, kani_harnesses, os.path.join(workroot, 'kani'), a.tier, seed)
+            kres = kanirun.run(REPO, kani_harnesses, os.path.join(workroot, 'kani'), a.tier, seed, concrete='replayable-only')
             ev['kani'] = kres['summary']
             if kres.get('fatal'):
                 log('UNDECIDED property=%s reason=kani: %s' % (prop, kres['fatal'][:3000]))
@@ -220,7 +220,8 @@ def main():
                     bounded.append({'harness': h['name'], 'bound': h.get('bound'), 'status': h['status'], 'time_s': h.get('time_s')})
                 if h['status'] == 'refuted':
                     violations.append({'backend': 'kani', 'obligation': 'kani::' + h['name'], 'failures': h.get('failures', []),
-                                       'counterexample': h.get('counterexample'), 'native': h.get('native')})
+                                       'counterexample': h.get('counterexample'), 'native': h.get('native'),
+                                       'playback_deferred': h.get('playback_deferred')})
                 elif h['status'] == 'undecided':
                     hreg = kanirun.HREG.H.get(h['name'], {})
                     if a.tier == 'thorough' and hreg.get('tier') == 'thorough' and h.get('reason') in ('timeout', 'no result in output'):
@@ -256,6 +257,11 @@ def main():
                 except ImportError:
                     found = None
             v['search'] = found
+            if v.get('playback_deferred') and not (found and found.get('input')):
+                try:
+                    v['counterexample'] = kanirun.playback_only(REPO, v['obligation'].split('::', 1)[1], os.path.join(workroot, 'kani_playback'))
+                except Exception as e:      # never let the playback break the verdict
+                    v['counterexample'] = None
             if found and found.get('exhaustive') and not found.get('input') and v['backend'] == 'verus':
                 # the whole domain of the function was replayed natively without a failing input:
                 # the proof attempt failed but the property demonstrably holds -> undecided, not an alarm
